@@ -16,15 +16,21 @@ C11 — thread safety of the JIT memory manager.
     `jit_schedule_is_sequential_history` (state and answers are those of C09's model on the completion order),
     `jit_monitor_accepts_every_schedule` (C09's independent monitor accepts what the threads observed - "with the guarantees of
     C09"), `jit_program_order` (each thread's operations complete in its program order).
+(e), (g) are in Props/C11Static.lean.
 (e) independent code generation shares nothing: over the symbol tables and relocation records of the object files of the current
     tree (Gen/StaticRefs.lean, tools/gen_statics.py): `all_writable_statics_reviewed`, `no_thread_locals`,
     `only_reviewed_accessors_touch_statics`, `codegen_units_share_nothing`.
+(g) the other state the property names: the process-wide caches (`writable_statics_are_atomic_or_published`: every writable
+    static is a `std::atomic` or one of the two host-information records published by an atomic flag; `init_once_publish_discipline`:
+    in `CpuInfo::host()` / `VirtMem::info()` the record is written only inside the `if (!flag.load())` block and before the
+    flag's store), the lock itself (`lock_is_a_pthread_mutex`), the write path (`write_paths_disciplined`), the runtime handles
+    (`runtime_handles_only_written_by_constructors`), the anchored table units (`table_units_have_no_writable_object`) and the
+    JIT write-protection / cache-flush helpers (`jit_scopes_touch_no_static`).
 (f) `program_order_sublist`: the decidable check the driver runs on a recorded lock-order history (Spec/JitTrace.lean) does imply
     that each thread's own log is a subsequence of the history.
 -/
 import AsmjitVerif.Gen.LockMap
 import AsmjitVerif.Gen.Globals
-import AsmjitVerif.Gen.StaticRefs
 import AsmjitVerif.Lemmas.Linearise
 import AsmjitVerif.Model.JitConc
 import AsmjitVerif.Spec.JitTrace
@@ -83,8 +89,9 @@ def allowedGlobals : List String :=
     "asmjit::VirtMem::generate_random_bits(unsigned long, unsigned int)::internal_counter",
     "asmjit::VirtMem::has_hardened_runtime()::cached_hardened_flag",
     "asmjit::VirtMem::get_anonymous_memory_strategy(asmjit::VirtMem::AnonymousMemoryStrategy*)::cached_strategy",
-    -- found by the section-based listing (a GNU-unique symbol, invisible to the nm letters b/B/d/D): a `static volatile uint32_t`
-    -- that is set to 1 (idempotent) when the kernel answers ENOSYS to memfd_create - init-once, never written on this kernel
+    -- found by the section-based listing (a GNU-unique symbol, invisible to the nm letters b/B/d/D): set to 1 (idempotent) when the
+    -- kernel answers ENOSYS to memfd_create.  It was a `static volatile uint32_t` (a data race between two allocators: finding
+    -- C11-1, fixes/C11-1.patch makes it a relaxed std::atomic) - `writable_statics_are_atomic_or_published` below checks the type
     "asmjit::VirtMem::AnonymousMemory::open(bool)::memfd_create_not_supported",
     -- the verification hooks H1 / H2 themselves (exist only with -DASMJIT_VERIF; null unless a harness sets them)
     "asmjit_verif_arena_fail", "asmjit_verif_jit_event" ]
@@ -92,60 +99,6 @@ def allowedGlobals : List String :=
 /-- there is no other mutable global: threads that use their own holders/emitters share nothing writable -/
 theorem no_mutable_globals : ∀ g ∈ mutableGlobals, allowedGlobals.contains g = true := by
   decide +kernel
-
-/-! ### (e) machine code and static storage (Gen/StaticRefs.lean) -/
-
-/-- variables of the verification hooks: null unless a harness sets them before any thread starts -/
-def hookVars : List String := ["asmjit_verif_arena_fail", "asmjit_verif_jit_event"]
-
-/-- name of a function without its parameter list -/
-def fnBase (f : String) : String := String.ofList (f.toList.takeWhile (· != '('))
-
-/-- the reviewed init-once accessors: the only functions whose machine code may refer to writable static storage.
-(`open` and `alloc_dual_mapping` contain the inlined bodies of `get_mfd_exec_flag`, `generate_random_bits` and
-`get_anonymous_memory_strategy`; `hardened_runtime_info` that of `has_hardened_runtime`.) -/
-def accessorFns : List (String × String) :=
-  [("asmjit/core/cpuinfo.cpp", "asmjit::CpuInfo::host"),
-   ("asmjit/core/virtmem.cpp", "asmjit::VirtMem::info"),
-   ("asmjit/core/virtmem.cpp", "asmjit::VirtMem::large_page_size"),
-   ("asmjit/core/virtmem.cpp", "asmjit::VirtMem::hardened_runtime_info"),
-   ("asmjit/core/virtmem.cpp", "asmjit::VirtMem::has_hardened_runtime"),
-   ("asmjit/core/virtmem.cpp", "asmjit::VirtMem::get_mfd_exec_flag"),
-   ("asmjit/core/virtmem.cpp", "asmjit::VirtMem::generate_random_bits"),
-   ("asmjit/core/virtmem.cpp", "asmjit::VirtMem::get_anonymous_memory_strategy"),
-   ("asmjit/core/virtmem.cpp", "asmjit::VirtMem::AnonymousMemory::open"),
-   ("asmjit/core/virtmem.cpp", "asmjit::VirtMem::alloc_dual_mapping")]
-
-/-- translation units that hold the init-once caches; every other unit (CodeHolder, emitters, Builder, Compiler, register
-allocator, formatter, instruction databases, arena and containers, JIT allocator and runtime) is "code generation" here -/
-def cacheUnits : List String := ["asmjit/core/cpuinfo.cpp", "asmjit/core/virtmem.cpp"]
-
-/-- every object that lives in a writable data section of any translation unit - whatever its binding (local, global, weak,
-GNU-unique) - is on the reviewed list -/
-theorem all_writable_statics_reviewed : ∀ o ∈ writableObjects, allowedGlobals.contains o.2 = true := by
-  decide +kernel
-
-/-- nothing is thread-local either (no hidden per-thread caches whose first use could differ between threads) -/
-theorem no_thread_locals : threadLocals = [] := by
-  decide +kernel
-
-/-- every reference from machine code into a writable data section is made by a reviewed init-once accessor or names a hook
-variable -/
-theorem only_reviewed_accessors_touch_statics :
-    ∀ r ∈ staticRefs, hookVars.contains r.2.2 = true ∨ accessorFns.contains (r.1, fnBase r.2.1) = true := by
-  decide +kernel
-
-/-- **Threads that use their own holders/emitters/compilers share nothing**: outside cpuinfo.cpp / virtmem.cpp no machine
-code of the library refers to writable static storage at all (hook variables aside) - only to constant tables -/
-theorem codegen_units_share_nothing :
-    ∀ r ∈ staticRefs, cacheUnits.contains r.1 = false → hookVars.contains r.2.2 = true := by
-  decide +kernel
-
-/-- non-vacuity: the listing does see the init-once caches and their accessor -/
-example : ("asmjit/core/cpuinfo.cpp", "asmjit::CpuInfo::host()", "asmjit::CpuInfo::host()::cpu_info_global") ∈ staticRefs := by
-  decide +kernel
-example : ("asmjit/core/virtmem.cpp", "asmjit::VirtMem::info()::vm_info") ∈ writableObjects := by decide +kernel
-example : fnBase "asmjit::CpuInfo::host()" = "asmjit::CpuInfo::host" := by decide
 
 end AsmjitVerif.LockMap
 
